@@ -37,6 +37,19 @@ struct CarrierState {
     rd_script: VecDeque<Ev>,
     wr_script: VecDeque<Ev>,
     sent: Vec<u8>,
+    /// the carrier completed a shutdown
+    shut: bool,
+    /// the last carrier call answered Pending, and the waker it was given is the harness's
+    last_pending: bool,
+    last_waker_ok: bool,
+    harness_waker: Option<std::task::Waker>,
+}
+
+impl CarrierState {
+    fn note(&mut self, pending: bool, cx: &Context<'_>) {
+        self.last_pending = pending;
+        self.last_waker_ok = self.harness_waker.as_ref().map(|w| cx.waker().will_wake(w)).unwrap_or(false);
+    }
 }
 
 /// Scripted carrier: every poll_read / poll_write / poll_flush call consumes one script event;
@@ -45,9 +58,11 @@ struct CarrierState {
 struct Carrier(Arc<Mutex<CarrierState>>);
 
 impl AsyncRead for Carrier {
-    fn poll_read(self: Pin<&mut Self>, _cx: &mut Context<'_>, buf: &mut ReadBuf<'_>) -> Poll<io::Result<()>> {
+    fn poll_read(self: Pin<&mut Self>, cx: &mut Context<'_>, buf: &mut ReadBuf<'_>) -> Poll<io::Result<()>> {
         let mut s = self.0.lock().unwrap();
-        match s.rd_script.pop_front() {
+        let ev = s.rd_script.pop_front();
+        s.note(matches!(ev, None | Some(Ev::Pending)), cx);
+        match ev {
             None | Some(Ev::Pending) => Poll::Pending,
             Some(Ev::Eof) => Poll::Ready(Ok(())),
             Some(Ev::Err) => Poll::Ready(Err(io::Error::new(io::ErrorKind::BrokenPipe, "scripted"))),
@@ -64,9 +79,11 @@ impl AsyncRead for Carrier {
 }
 
 impl AsyncWrite for Carrier {
-    fn poll_write(self: Pin<&mut Self>, _cx: &mut Context<'_>, buf: &[u8]) -> Poll<io::Result<usize>> {
+    fn poll_write(self: Pin<&mut Self>, cx: &mut Context<'_>, buf: &[u8]) -> Poll<io::Result<usize>> {
         let mut s = self.0.lock().unwrap();
-        match s.wr_script.pop_front() {
+        let ev = s.wr_script.pop_front();
+        s.note(matches!(ev, None | Some(Ev::Pending)), cx);
+        match ev {
             None | Some(Ev::Pending) => Poll::Pending,
             Some(Ev::Err) | Some(Ev::Eof) =>
                 Poll::Ready(Err(io::Error::new(io::ErrorKind::BrokenPipe, "scripted"))),
@@ -77,17 +94,30 @@ impl AsyncWrite for Carrier {
             }
         }
     }
-    fn poll_flush(self: Pin<&mut Self>, _cx: &mut Context<'_>) -> Poll<io::Result<()>> {
+    fn poll_flush(self: Pin<&mut Self>, cx: &mut Context<'_>) -> Poll<io::Result<()>> {
         let mut s = self.0.lock().unwrap();
-        match s.wr_script.pop_front() {
+        let ev = s.wr_script.pop_front();
+        s.note(matches!(ev, None | Some(Ev::Pending)), cx);
+        match ev {
             None | Some(Ev::Pending) => Poll::Pending,
             Some(Ev::Err) | Some(Ev::Eof) =>
                 Poll::Ready(Err(io::Error::new(io::ErrorKind::BrokenPipe, "scripted"))),
             Some(Ev::Chunk(_)) => Poll::Ready(Ok(())),
         }
     }
-    fn poll_shutdown(self: Pin<&mut Self>, _cx: &mut Context<'_>) -> Poll<io::Result<()>> {
-        Poll::Ready(Ok(()))
+    fn poll_shutdown(self: Pin<&mut Self>, cx: &mut Context<'_>) -> Poll<io::Result<()>> {
+        let mut s = self.0.lock().unwrap();
+        let ev = s.wr_script.pop_front();
+        s.note(matches!(ev, None | Some(Ev::Pending)), cx);
+        match ev {
+            None | Some(Ev::Pending) => Poll::Pending,
+            Some(Ev::Err) | Some(Ev::Eof) =>
+                Poll::Ready(Err(io::Error::new(io::ErrorKind::BrokenPipe, "scripted"))),
+            Some(Ev::Chunk(_)) => {
+                s.shut = true;
+                Poll::Ready(Ok(()))
+            }
+        }
     }
 }
 
@@ -97,6 +127,10 @@ enum Op {
     StartSend(u8, usize),
     Flush,
     SendFramed(u8, usize),
+    /// Sink::poll_close, one poll
+    PollClose,
+    /// Substream::close(self), driven to completion; only as the last operation
+    CloseAll,
 }
 
 struct Case {
@@ -186,8 +220,13 @@ fn parse_case(c: &[u64]) -> Option<Case> {
                 }
             }
             2 => Op::Flush,
+            4 => Op::PollClose,
+            5 => Op::CloseAll,
             _ => return None,
         });
+    }
+    if ops.iter().rev().skip(1).any(|o| matches!(o, Op::CloseAll)) {
+        return None;
     }
     let wscript = parse_script(&mut c, false)?;
     let nraw = c.count()?;
@@ -254,54 +293,106 @@ fn poll_code(p: Poll<Result<(), SubstreamError>>) -> u64 {
 
 const PANIC: u64 = 9;
 
-fn dump_writer(sub: &Substream, car: &Carrier, sent_before: usize, out: &mut Vec<u64>) {
-    let (pbytes, frames, cur, ..) = sub.verif_state();
-    out.push(pbytes as u64);
-    out.push(frames.len() as u64);
-    out.extend(frames.iter().map(|l| *l as u64));
-    out.push(cur.map(|l| l as u64 + 1).unwrap_or(0));
+fn dump_writer(sub: Option<&Substream>, car: &Carrier, sent_before: usize, wake: bool, out: &mut Vec<u64>) {
+    if let Some(sub) = sub {
+        let (pbytes, frames, cur, ..) = sub.verif_state();
+        out.push(pbytes as u64);
+        out.push(frames.len() as u64);
+        out.extend(frames.iter().map(|l| *l as u64));
+        out.push(cur.map(|l| l as u64 + 1).unwrap_or(0));
+    }
     let s = car.0.lock().unwrap();
     out.push(s.sent.len() as u64);
     rle(out, &s.sent[sent_before.min(s.sent.len())..]);
+    out.extend([s.wr_script.len() as u64, s.shut as u64, wake as u64]);
+}
+
+struct HarnessWake;
+impl futures::task::ArcWake for HarnessWake {
+    fn wake_by_ref(_: &Arc<Self>) {}
+}
+
+/// A Pending answer is legitimate only if the last carrier call answered Pending and was given
+/// the caller's waker (otherwise nothing would ever wake the task).
+fn wake_ok(car: &Carrier, pending: bool) -> bool {
+    let s = car.0.lock().unwrap();
+    !pending || (s.last_pending && s.last_waker_ok)
+}
+
+fn new_sub(car: &Carrier, codec: ProtocolCodec) -> Option<Substream> {
+    catch_unwind(AssertUnwindSafe(|| {
+        Substream::new_verif(PeerId::random(), SubstreamId::from(7usize), Box::new(car.clone()), codec)
+    }))
+    .ok()
 }
 
 fn run_case(c: &[u64]) -> Vec<u64> {
+    if c.first().map(|t| *t >= 10).unwrap_or(false) {
+        return run_e2e(c);
+    }
     let Some(case) = parse_case(c) else { return vec![0] };
     let car = Carrier(Arc::new(Mutex::new(CarrierState::default())));
-    car.0.lock().unwrap().wr_script = case.wscript.iter().copied().collect();
-    let made = catch_unwind(AssertUnwindSafe(|| {
-        Substream::new_verif(PeerId::random(), SubstreamId::from(7usize), Box::new(car.clone()), case.codec)
-    }));
+    let waker = futures::task::waker(Arc::new(HarnessWake));
+    {
+        let mut s = car.0.lock().unwrap();
+        s.wr_script = case.wscript.iter().copied().collect();
+        s.harness_waker = Some(waker.clone());
+    }
     let mut out = vec![1u64];
-    let Ok(mut sub) = made else {
+    let Some(sub) = new_sub(&car, case.codec) else {
         out.push(PANIC);
         return out;
     };
-    let waker = futures::task::noop_waker();
+    let mut sub = Some(sub);
     let mut cx = Context::from_waker(&waker);
 
     for op in &case.ops {
         let sent_before = car.0.lock().unwrap().sent.len();
-        let r = catch_unwind(AssertUnwindSafe(|| -> Vec<u64> {
+        let r = catch_unwind(AssertUnwindSafe(|| -> (Vec<u64>, bool) {
+            let one = |p: Poll<Result<(), SubstreamError>>| {
+                let pending = p.is_pending();
+                (vec![poll_code(p)], wake_ok(&car, pending))
+            };
             match op {
-                Op::Ready => vec![poll_code(Sink::<Bytes>::poll_ready(Pin::new(&mut sub), &mut cx))],
-                Op::Flush => vec![poll_code(Sink::<Bytes>::poll_flush(Pin::new(&mut sub), &mut cx))],
-                Op::StartSend(b, len) => match Sink::<Bytes>::start_send(Pin::new(&mut sub), mk_msg(*b, *len)) {
-                    Ok(()) => vec![1],
-                    Err(e) => vec![err_code(&e)],
-                },
+                Op::Ready => one(Sink::<Bytes>::poll_ready(Pin::new(sub.as_mut().unwrap()), &mut cx)),
+                Op::Flush => one(Sink::<Bytes>::poll_flush(Pin::new(sub.as_mut().unwrap()), &mut cx)),
+                Op::PollClose => one(Sink::<Bytes>::poll_close(Pin::new(sub.as_mut().unwrap()), &mut cx)),
+                Op::StartSend(b, len) =>
+                    match Sink::<Bytes>::start_send(Pin::new(sub.as_mut().unwrap()), mk_msg(*b, *len)) {
+                        Ok(()) => (vec![1], true),
+                        Err(e) => (vec![err_code(&e)], true),
+                    },
                 Op::SendFramed(b, len) => {
-                    let mut fut = Box::pin(sub.send_framed(mk_msg(*b, *len)));
+                    let mut fut = Box::pin(sub.as_mut().unwrap().send_framed(mk_msg(*b, *len)));
                     let mut npend = 0u64;
+                    let mut wake = true;
                     loop {
                         match fut.as_mut().poll(&mut cx) {
-                            Poll::Ready(Ok(())) => break vec![1, npend],
-                            Poll::Ready(Err(e)) => break vec![err_code(&e), npend],
+                            Poll::Ready(Ok(())) => break (vec![1, npend], wake),
+                            Poll::Ready(Err(e)) => break (vec![err_code(&e), npend], wake),
                             Poll::Pending => {
                                 npend += 1;
+                                wake &= wake_ok(&car, true);
                                 // nothing can make progress any more: the future is dropped
                                 if car.0.lock().unwrap().wr_script.is_empty() {
-                                    break vec![0, npend];
+                                    break (vec![0, npend], wake);
+                                }
+                            }
+                        }
+                    }
+                }
+                Op::CloseAll => {
+                    let mut fut = Box::pin(sub.take().unwrap().close());
+                    let mut npend = 0u64;
+                    let mut wake = true;
+                    loop {
+                        match fut.as_mut().poll(&mut cx) {
+                            Poll::Ready(()) => break (vec![1, npend], wake),
+                            Poll::Pending => {
+                                npend += 1;
+                                wake &= wake_ok(&car, true);
+                                if car.0.lock().unwrap().wr_script.is_empty() {
+                                    break (vec![0, npend], wake);
                                 }
                             }
                         }
@@ -310,16 +401,19 @@ fn run_case(c: &[u64]) -> Vec<u64> {
             }
         }));
         match r {
-            Ok(v) => out.extend(v),
+            Ok((v, wake)) => {
+                out.extend(v);
+                dump_writer(sub.as_ref(), &car, sent_before, wake, &mut out);
+            }
             Err(_) => {
                 out.push(PANIC);
                 return out;
             }
         }
-        dump_writer(&sub, &car, sent_before, &mut out);
     }
 
-    // reader phase: what the carrier accepted, followed by the raw bytes of the case
+    // reader phase: what the carrier accepted, followed by the raw bytes of the case. The reader
+    // state is untouched by the writer phase; after close(self) a new Substream reads.
     {
         let mut s = car.0.lock().unwrap();
         let mut wire = s.sent.clone();
@@ -330,14 +424,28 @@ fn run_case(c: &[u64]) -> Vec<u64> {
         s.rd_pos = 0;
         s.rd_script = case.rscript.iter().copied().collect();
     }
+    let mut sub = match sub {
+        Some(s) => s,
+        None => match new_sub(&car, case.codec) {
+            Some(s) => s,
+            None => {
+                out.push(PANIC);
+                return out;
+            }
+        },
+    };
     for _ in 0..case.npolls {
         let r = catch_unwind(AssertUnwindSafe(|| Stream::poll_next(Pin::new(&mut sub), &mut cx)));
+        let mut pending = false;
         match r {
             Err(_) => {
                 out.push(PANIC);
                 return out;
             }
-            Ok(Poll::Pending) => out.push(0),
+            Ok(Poll::Pending) => {
+                pending = true;
+                out.push(0)
+            }
             Ok(Poll::Ready(None)) => out.push(1),
             Ok(Poll::Ready(Some(Ok(frame)))) => {
                 out.push(2);
@@ -346,17 +454,190 @@ fn run_case(c: &[u64]) -> Vec<u64> {
             Ok(Poll::Ready(Some(Err(SubstreamError::ReadFailure(_))))) => out.push(3),
             Ok(Poll::Ready(Some(Err(_)))) => out.push(4),
         }
-        let (_, _, _, buf_len, offset, cur, pending) = sub.verif_state();
+        let wake = wake_ok(&car, pending);
+        let (_, _, _, buf_len, offset, cur, pending_frames) = sub.verif_state();
         let s = car.0.lock().unwrap();
         out.extend([
             buf_len as u64,
             offset as u64,
             cur.map(|x| x as u64 + 1).unwrap_or(0),
             (s.rd_wire.len() - s.rd_pos) as u64,
-            pending as u64,
+            pending_frames as u64,
+            s.rd_script.len() as u64,
+            wake as u64,
         ]);
     }
     out
+}
+
+// ---------------------------------------------------------------- end to end over real yamux substreams
+
+/// Case `T arg nops op* 0 0 0 0` with T = 10 + codec tag (TCP substream type) or 20 + codec tag
+/// (WebSocket substream type); ops: 1 b len = SinkExt::feed, 2 = SinkExt::flush, 3 b len =
+/// send_framed, 4 = SinkExt::close. A reader task drains the accepting side concurrently.
+/// Trace: 2, one code per op, number of frames, RLE of each frame, final code of the reader
+/// (1 = clean end of stream).
+fn run_e2e(c: &[u64]) -> Vec<u64> {
+    use futures::{SinkExt, StreamExt};
+    use litep2p::substream::VerifYamuxPair;
+    use std::time::Duration;
+    let mut cur = Cur(c, 0);
+    let parsed = (|| {
+        let t = cur.next()?;
+        let arg = cur.next()?;
+        let (ws, tag) = match t {
+            10..=12 => (false, t - 10),
+            20..=22 => (true, t - 20),
+            _ => return None,
+        };
+        let codec = match tag {
+            0 if arg <= MAX_LEN => ProtocolCodec::Identity(arg as usize),
+            1 if arg == 0 => ProtocolCodec::UnsignedVarint(None),
+            2 => ProtocolCodec::UnsignedVarint(Some(arg as usize)),
+            _ => return None,
+        };
+        let nops = cur.count()?;
+        let mut ops = Vec::new();
+        for _ in 0..nops {
+            ops.push(match cur.next()? {
+                t @ (1 | 3) => {
+                    let b = cur.next()?;
+                    let len = cur.next()?;
+                    if b > 255 || len > MAX_LEN {
+                        return None;
+                    }
+                    (t, b as u8, len as usize)
+                }
+                2 => (2, 0, 0),
+                4 => (4, 0, 0),
+                _ => return None,
+            });
+        }
+        for _ in 0..4 {
+            if cur.next()? != 0 {
+                return None;
+            }
+        }
+        if cur.1 != c.len() {
+            return None;
+        }
+        Some((ws, codec, ops))
+    })();
+    let Some((ws, codec, ops)) = parsed else { return vec![0] };
+    let pipe = [1024usize, 65536, 1 << 20][ops.len() % 3];
+    let rt = tokio::runtime::Builder::new_current_thread().enable_all().build().unwrap();
+    let limit = Duration::from_secs(20);
+    rt.block_on(async move {
+        let mut out = vec![2u64];
+        let Some(pair) = VerifYamuxPair::new(ws, codec, pipe).await else {
+            out.push(PANIC);
+            return out;
+        };
+        let VerifYamuxPair { dialer, listener, .. } = pair;
+        let mut dialer = dialer;
+        let reader = tokio::spawn(async move {
+            let mut frames: Vec<Vec<u8>> = Vec::new();
+            // yamux announces a stream with its first data frame; a dialer that never writes is never seen
+            let mut sub = match tokio::time::timeout(Duration::from_secs(2), listener).await {
+                Ok(Ok(s)) => s,
+                _ => return (frames, 8u64),
+            };
+            loop {
+                match tokio::time::timeout(limit, sub.next()).await {
+                    Ok(Some(Ok(f))) => frames.push(f.to_vec()),
+                    Ok(None) => return (frames, 1),
+                    Ok(Some(Err(SubstreamError::ReadFailure(_)))) => return (frames, 3),
+                    Ok(Some(Err(_))) => return (frames, 4),
+                    Err(_) => return (frames, 7),
+                }
+            }
+        });
+        for (t, b, len) in ops {
+            let code = match t {
+                1 => match tokio::time::timeout(limit, dialer.feed(mk_msg(b, len))).await {
+                    Ok(Ok(())) => 1,
+                    Ok(Err(e)) => err_code(&e),
+                    Err(_) => 7,
+                },
+                2 => match tokio::time::timeout(limit, SinkExt::<Bytes>::flush(&mut dialer)).await {
+                    Ok(Ok(())) => 1,
+                    Ok(Err(e)) => err_code(&e),
+                    Err(_) => 7,
+                },
+                3 => match tokio::time::timeout(limit, dialer.send_framed(mk_msg(b, len))).await {
+                    Ok(Ok(())) => 1,
+                    Ok(Err(e)) => err_code(&e),
+                    Err(_) => 7,
+                },
+                _ => match tokio::time::timeout(limit, SinkExt::<Bytes>::close(&mut dialer)).await {
+                    Ok(Ok(())) => 1,
+                    Ok(Err(e)) => err_code(&e),
+                    Err(_) => 7,
+                },
+            };
+            out.push(code);
+        }
+        let (frames, fin) = reader.await.unwrap_or((Vec::new(), PANIC));
+        out.push(frames.len() as u64);
+        for f in &frames {
+            rle(&mut out, f);
+        }
+        out.push(fin);
+        out
+    })
+}
+
+fn gen_e2e(rng: &mut Rng, thorough: bool) -> Vec<u64> {
+    let ws = rng.chance(50);
+    let (tag, arg) = match rng.below(3) {
+        0 => (0u64, rng.pick(&[1u64, 10, 1024, 1025, 2048, 70000, 300_000])),
+        1 => (1, 0),
+        _ => (2, rng.pick(&[1u64, 128, 16384, 70000, 1 << 21])),
+    };
+    let mut c = vec![if ws { 20 } else { 10 } + tag, arg];
+    let mut ops: Vec<u64> = Vec::new();
+    let mut nops = 0;
+    let nmsgs = rng.range(1, if thorough { 10 } else { 6 });
+    let mut unflushed = false;
+    for i in 0..nmsgs {
+        let b = (i * 2 + rng.below(2) * 100 + 3) % 256;
+        let mut len = match tag {
+            0 => arg,
+            1 => rng.pick(&[0u64, 1, 127, 128, 16384, 65536, 262_144, 262_145, 300_000, 1 << 20, 2_000_000]),
+            _ => rng.pick(&[0u64, 1, arg / 2, arg, arg.min(262_145), arg.min(300_000)]),
+        };
+        if i > 0 && rng.chance(10) {
+            len = match tag {
+                0 => arg + 1,
+                2 => arg + 1,
+                _ => len,
+            };
+        }
+        if rng.chance(55) {
+            ops.extend([1, b, len]);
+            unflushed = true;
+            if i == 0 || rng.chance(50) {
+                ops.push(2);
+                nops += 1;
+                unflushed = false;
+            }
+        } else {
+            ops.extend([3, b, len]);
+            unflushed = false;
+        }
+        nops += 1;
+    }
+    // callers flush before closing; now and then the close comes first and the queued frames are dropped
+    if unflushed && rng.chance(80) {
+        ops.push(2);
+        nops += 1;
+    }
+    ops.push(4);
+    nops += 1;
+    c.push(nops);
+    c.extend(ops);
+    c.extend([0, 0, 0, 0]);
+    c
 }
 
 // ---------------------------------------------------------------- generator
@@ -396,8 +677,12 @@ fn gen_script(rng: &mut Rng, total: u64, calls_hint: u64, read: bool, faulty: bo
             evs.push(Ev::Pending);
             continue;
         }
-        if faulty && rng.chance(2) {
-            evs.push(if read && rng.chance(50) { Ev::Eof } else { Ev::Err });
+        if faulty && rng.chance(3) {
+            evs.push(if rng.chance(50) {
+                if read { Ev::Eof } else { Ev::Chunk(0) } // end of stream / carrier accepts nothing
+            } else {
+                Ev::Err
+            });
             continue;
         }
         let n = match style {
@@ -438,7 +723,8 @@ fn gen_case(rng: &mut Rng, thorough: bool) -> Vec<u64> {
         _ => (2, rng.pick(&[0u64, 1, 127, 128, 16384, 1 << 21, 300, 70000, 20])),
     };
     let mut c = vec![tag, arg];
-    let kind = rng.below(10); // 0..=5 sink, 6..=7 send_framed, 8 mixed, 9 raw reader
+    let kind = rng.below(12); // 0..=4 sink, 5..=6 send_framed, 7..=10 mixed, 11 raw reader
+    let kind = match kind { 0..=4 => 0, 5..=6 => 6, 7..=10 => 8, _ => 9 };
     let fits = |rng: &mut Rng, first: bool| -> u64 {
         match tag {
             0 => arg,
@@ -541,9 +827,33 @@ fn gen_case(rng: &mut Rng, thorough: bool) -> Vec<u64> {
             calls += 2;
         }
     }
+    if kind != 9 {
+        // closing the substream, with or without a preceding flush
+        match rng.below(10) {
+            0..=2 => {
+                for _ in 0..rng.range(1, 3) {
+                    ops.push(4);
+                    nops += 1;
+                    calls += 3;
+                }
+                if rng.chance(30) {
+                    ops.extend([1, 77, fits(rng, false)]);
+                    ops.push(4);
+                    nops += 2;
+                    calls += 3;
+                }
+            }
+            3..=4 => {
+                ops.push(5);
+                nops += 1;
+                calls += 4;
+            }
+            _ => {}
+        }
+    }
     c.push(nops);
     c.extend(ops);
-    let faulty = rng.chance(6);
+    let faulty = rng.chance(15);
     let ws = gen_script(rng, total, calls, false, faulty);
     push_script(&mut c, &ws);
     // raw bytes appended to the reader's wire
@@ -631,9 +941,9 @@ pub fn main(args: &Args) {
     if args.str("replay").is_some() {
         return;
     }
-    for _ in 0..ncases {
+    for i in 0..ncases {
         let mut r = rng.fork();
-        let c = gen_case(&mut r, thorough);
+        let c = if i % 25 == 24 { gen_e2e(&mut r, thorough) } else { gen_case(&mut r, thorough) };
         let t = catch_unwind(AssertUnwindSafe(|| run_case(&c))).unwrap_or(vec![PANIC_MARK]);
         out.emit(&c, &t);
     }
